@@ -57,9 +57,13 @@ func guarded(f func() (reflect.Value, error)) (v reflect.Value, err error, pan i
 
 // measured runs f and reports the bytes allocated meanwhile (runtime.MemStats.TotalAlloc delta; the
 // test process runs one test goroutine, the only other allocator is vstat's 2-second flush, which
-// the re-measurement in checkSafety filters out).
+// the barrier below and the re-measurement in checkSafety filter out).
 func measured(f func() (reflect.Value, error)) decodeResult {
 	var m0, m1 runtime.MemStats
+	// Barrier against the one other allocator in the process: vstat's flush goroutine marshals its
+	// record (megabytes once many fingerprints are recorded) while holding vstat's mutex, and every
+	// vstat call takes that mutex - so this call returns only when no flush is in progress.
+	vstat.WantSample()
 	runtime.ReadMemStats(&m0)
 	v, err, pan := guarded(f)
 	runtime.ReadMemStats(&m1)
